@@ -78,6 +78,11 @@ func (s *CollapsingLowestDenseStore) extendRange(newMinIndex, newMaxIndex int) {
 	newMaxIndex = max(newMaxIndex, s.maxIndex)
 	if s.IsEmpty() {
 		initialLength := s.getNewLength(newMinIndex, newMaxIndex)
+		if newMaxIndex-newMinIndex+1 > initialLength {
+			// The range does not fit: lowest indices are collapsed right away.
+			newMinIndex = newMaxIndex - initialLength + 1
+			s.isCollapsed = true
+		}
 		s.bins = append(s.bins, make([]float64, initialLength)...)
 		s.offset = newMinIndex
 		s.minIndex = newMinIndex
